@@ -97,6 +97,22 @@ def handle (s : S) : List String → S × String
       let impl := (finalStr' final ++ " " ++ " ".intercalate visited).trimAscii.toString
       (s, verdict (finalStr f ++ " " ++ showVisitedC s.p v).trimAscii.toString (finalStr fs ++ " " ++ showVisitedS s.s vs).trimAscii.toString impl)
     | _, _ => (s, "bad-op")
+  -- nest <x> <final> <visited …>: the exception handler at position x, while it handles an exception fired at the
+  -- head, fires a second one; each of the two travels the whole chain of exception handlers from the head
+  | "nest" :: x :: final :: visited =>
+    match x.toNat? with
+    | some xi =>
+      let (vs, fs) := s.s.deliver .exception 0
+      let vs' := vs.filter (fun j => j != 0 && j != s.s.length + 1)
+      let expect := if vs'.contains xi then
+          let pre := vs'.takeWhile (· != xi) ++ [xi]
+          let post := (vs'.dropWhile (· != xi)).drop 1
+          pre ++ vs' ++ post
+        else vs'
+      let spec := (finalStr fs ++ " " ++ showVisitedS s.s expect).trimAscii.toString
+      let impl := (final ++ " " ++ " ".intercalate visited).trimAscii.toString
+      (s, verdict spec spec impl)
+    | none => (s, "bad-op")
   | _ => (s, "bad-op")
 where finalStr' (t : String) : String := t
 
